@@ -56,6 +56,12 @@ func c10Cases(tier string) []Case {
 		c10Case("unknown-account", nil, []string{send("%N", "@a", "@b"), sendAll("EUR", "@c", "@d"), send("%N", "@a", "@e")}, map[string][2]string{"_omit": {"", "c"}}, "", ""),
 		c10Case("interned-amounts", nil, []string{send("%N", "@a", "@c"), send("%N", "@b", "@d")}, map[string][2]string{"_alias": {"", "b:a"}}, "", ""),
 		c10Case("interned-amounts", nil, []string{"save %N from @a", sendAll("USD", "{ @b @a }", "@d")}, map[string][2]string{"_alias": {"", "b:a"}}, "", ""),
+		// @world named where a balance is read: its balance is never requested, so it may not matter either
+		c10Case("world-balance-read", []string{bal("w", "world", "USD")}, []string{send("$w", "{ @a @world }", "@d")}, nil, "", ""),
+		c10Case("world-balance-read", []string{bal("m", "a", "USD"), bal("w", "world", "USD")}, []string{send("$m", "@a", "@d"), send("$w", "@b", "@e")}, nil, "", ""),
+		c10Case("world-balance-read", []string{od("o", "world", "USD")}, []string{send("$o", "@a", "@d")}, nil, "", flag),
+		c10Case("world-balance-read", nil, []string{"save %N from @world", send("%N", "{ @a @world }", "@d")}, nil, "", ""),
+		c10Case("world-balance-read", nil, []string{send("%N", "@a", "@world"), "save [USD *] from @world", send("%N", "{ @b @world }", "@d")}, nil, "", ""),
 		c10Case("capped-world-then-source", nil, []string{send("%N", "{ @a max %C from @world @b }", "@d")}, nil, "", ""),
 		c10Case("capped-world-then-source", nil, []string{sendAll("USD", "{ @a max %C from @world @b }", "@d")}, nil, "", ""),
 		c10Case("capped-world-then-source", nil, []string{send("%N", "{ max %C from { @world @a } @b }", "@d"), send("%N", "{ @b @a }", "@e")}, nil, "", ""),
@@ -84,7 +90,7 @@ func init() {
 		Files: apiFiles, LoadPkgs: apiLoad, InitPkgs: apiInit,
 		Cases: c10Cases,
 		Bounds: stdBounds(
-			map[string]interface{}{"templates": "38 scripts with balance()/overdraft()/meta() origins, saves, account variables, two assets", "stores": "exact, sparse, superset, static, interned (one number object shared by equal entries) over one symbolic truth table (<=4 accounts x <=2 assets + world)", "runs_per_path": 5},
+			map[string]interface{}{"templates": "43 scripts with balance()/overdraft()/meta() origins, saves, account variables, two assets", "stores": "exact, sparse, superset, static, interned (one number object shared by equal entries) over one symbolic truth table (<=4 accounts x <=2 assets + world)", "runs_per_path": 5},
 			map[string]interface{}{"templates": "31 scripts", "stores": "exact, sparse, superset, static, interned", "runs_per_path": 5}),
 		Assumptions: append([]string{"metadata values are concrete per case; balances are symbolic", "stores answering with nil maps are outside (covered for panic-freedom only in C12)"}, apiAssumptions...),
 		Stubs:       append([]string{"harness stores zzStore{exact,sparse,superset,static} implement interpreter.Store"}, apiStubs...),
